@@ -32,4 +32,11 @@ CHECKS = {
          "by each of 21 pool members, drop/add key, shorten/lengthen list) is decoded by the library and by ref.decode: defined result => equal and "
          "exact-class conforming; reference rejects => library raises; unspecified => only conformance. Exhaustive over the stated input sets.",
     note="trusted base: vmc/ref.py three-valued decode (Value/Reject/Unspecified) and vmc/foreign.py; two open findings (Union None fallback pinned by tests, NamedTuple default IndexError swallow)"),
+ "C11": dict(engine="E1 schema-space", design_ref="6/C11, 4.1",
+    technique="exhaustive enumeration of all ordered 2/3-member unions over a member alphabet x input pool against the reference union reading",
+    text="Every ordered union of 2 and 3 members over 13 member kinds (23 in thorough), plus Optional-of-union, PEP 604, nested and "
+         "constrained-TypeVar spellings and the Literal leaves, as codec shape and mixin field: every pool input, member encoding and "
+         "single substitution is decoded and compared with the reference reading (declaration order, exact scalar match, coercion "
+         "fallback, None only for None, raise otherwise); every member value must serialize to its own member's encoding.",
+    note="trusted base: vmc/ref.py decode_union (reading fixed in DESIGN.md 4.1 from pinned tests); open findings: None fallback (pinned by tests), fixed-tuple member packing lists"),
 }
